@@ -76,4 +76,16 @@ Spec == Init /\ [][Next]_vars /\ WF_vars(ConnectReturns) /\ WF_vars(SessDone) /\
 CloseTerminates == (closeReq = "waiting") ~> (closeReq = "returned")
 \* and relisting is never blocked behind the watch path (C03)
 ListAlwaysTaken == relist ~> (~relist \/ ctl \in {"stopping", "done"})
+\* safety side of C12 (no zombie) and C11 (cascade order), checked as invariants:
+TypeOK == /\ sess \in {"connecting", "select", "stopping", "done"} /\ sctx \in BOOLEAN
+          /\ wat \in {"select", "instop", "done"} /\ ctl \in {"select", "inreset", "stopping", "done"}
+          /\ closeReq \in {"no", "waiting", "taken", "returned"} /\ relist \in BOOLEAN
+\* Close() returns only when every goroutine below the controller has ended
+NoZombieAfterClose == closeReq = "returned" => (sess = "done" /\ wat = "done" /\ ctl = "done")
+\* the controller is Done only after its children; nobody stops before a shutdown was requested
+DoneOrder == /\ (ctl = "done" => (wat = "done" /\ sess = "done"))
+             /\ (ctl \in {"stopping", "done"} => closeReq \in {"taken", "returned"})
+             /\ (wat = "done" => ctl \in {"stopping", "done"})
+\* the session context is cancelled only by a reset (with the fix) or by the cascade from the controller
+CancelHasCause == sctx => (CancelOnStop \/ closeReq \in {"taken", "returned"})
 =============================================================================
